@@ -525,6 +525,9 @@ func runC09(c *core.Ctx, idx int) {
 		siblingScenario(c, idx-n, "C09")
 		return
 	}
+	if idx%60 == 7 {
+		c09Many(c, idx)
+	}
 	r := c.Rand()
 	cfg := c09Configs[idx%len(c09Configs)]
 	e, err := kmodel.NewEngine(c, cfg)
@@ -935,4 +938,56 @@ func diffClass(d []string) string {
 		return kind + strings.Join(parts, "/")
 	}
 	return s
+}
+
+// c09Many: a database with more than a thousand inconsistencies of one kind (a unique index full of entries for
+// entities that are gone): a check-only run reports every one of them, like the fix run that follows; then it is clean.
+func c09Many(c *core.Ctx, idx int) {
+	e, err := kmodel.NewEngine(c, c09Configs[idx%len(c09Configs)])
+	if err != nil {
+		c.Violation("C09 setup", err.Error(), nil)
+		return
+	}
+	defer e.Close()
+	n := 1100 + 100*(idx%5)
+	if err := e.Db.Update(nil, func(ctx boltz.MutateContext) error {
+		ix := bpath(ctx.Tx(), "stores", "indexes", "emps", "name")
+		if ix == nil {
+			return fmt.Errorf("no name index bucket")
+		}
+		for i := 0; i < n; i++ {
+			if err := ix.Put([]byte(fmt.Sprintf("zz-many-%05d", i)), []byte(fmt.Sprintf("gone-%05d", i))); err != nil {
+				return err
+			}
+		}
+		return nil
+	}); err != nil {
+		c.Violationf("C09 many inconsistencies: planting failed", nil, "%v", err)
+		return
+	}
+	count := func(reps []report) int {
+		seen := map[string]bool{}
+		for _, r := range reps {
+			if i := strings.Index(r.Msg, "zz-many-"); i >= 0 && len(r.Msg) >= i+13 {
+				seen[r.Msg[i:i+13]] = true
+			}
+		}
+		return len(seen)
+	}
+	for _, mode := range []string{"view", "update"} {
+		reps, err := runIntegrity(e, false, mode)
+		c.Eval()
+		c.Count("check_runs_over_more_than_a_thousand_inconsistencies", 1)
+		if got := count(reps); err != nil || got != n {
+			c.Violationf("C09 a check-only run does not report every inconsistency of a badly damaged index ("+mode+")", map[string]any{"planted": n}, "%d of %d dangling unique index entries reported, err=%v", got, n, err)
+		}
+	}
+	reps, err := runIntegrity(e, true, "update")
+	if got := count(reps); err != nil || got != n {
+		c.Violationf("C09 a fix run does not report every inconsistency of a badly damaged index", map[string]any{"planted": n}, "%d of %d reported, err=%v", got, n, err)
+	}
+	if reps, err := runIntegrity(e, false, "view"); err != nil || len(reps) > 0 {
+		c.Violationf("C09 many inconsistencies: still reported after the fix run", map[string]any{"planted": n}, "%d reports, err=%v", len(reps), err)
+	}
+	c.Nontrivial("c09many", n)
 }
